@@ -72,6 +72,9 @@ type Interp struct {
 
 	initSteps int
 
+	preimages   map[string][]byte // digests computed natively on concrete input in this worker
+	preimageAlg map[string]string
+
 	// per-path state
 	P  *PathState
 	ex *Explorer
